@@ -120,7 +120,8 @@ GEN = (' Generic defect patterns are decided on the files the property is anchor
        'mutable container is mutated through an instance (R31), no closure kept beyond a loop iteration reads a variable the loop rebinds '
        '(R32), no mapping keyed by an itertools.groupby key is built over a sequence that is not sorted by that key (R33).')
 MORE = {
-    'C01': ' R1k replays every path of the dispatch loop on a finite set of abstract link kinds (nested Flow, processor, function, bound method, '
+    'C01': ' R34c (helpers only): a helper processor built by Flow._chain holds nothing a run uses up unless _chain builds the chain on every call.'
+           ' R1k replays every path of the dispatch loop on a finite set of abstract link kinds (nested Flow, processor, function, bound method, '
            'partial / callable object, empty and non-empty list / tuple of rows, generator, None, integer; vacuous all()/any() over an empty '
            'collection evaluated as such): a path a kind definitely takes must end in the outcome that kind calls for.',
     'C03': ' R12w: starting from FileFormat.write_row and following every self / super call that is handed the row, no writer method keeps the '
@@ -128,19 +129,24 @@ MORE = {
            'write_file_to_output that skips an existing file is open to datapackage.json.',
     'C04': ' The rename that commits a stream file, or a helper containing it, is called from the package step only (who-may-reach clause of R15).',
     'C05': ' R12w (writer keeps no row) as in C03; who-may-reach clause of R15 for the stream writer.',
+    'C02': ' R11i: the stream iterable_loader adds is <the inferred Resource>.iter(keyed=True), so rows are projected onto the inferred fields.',
+    'C16': ' SRC: a sub-flow resource of sources() is never re-paired through a lookup keyed by its name.',
+    'C17': ' The matcher-asked clause of R6c for filter_rows / deduplicate / unpivot.',
+    'C19': ' R14 (with contextlib.suppress counted as a handler) over the driver and the dumper modules.',
     'C06': ' R13h: a stream a step has yielded downstream is not drained, materialised or iterated by that step in the statements that follow '
            '(how far a stream is read is decided by its consumer alone).',
     'C07': ' R34: what the constructor of a step stores is not accumulated into or rebound from its own previous value by a run (classes), and a '
            'step function grows nothing that belongs to its factory scope (closures): running the same Flow object again - which is how a '
            'checkpointed pipeline is run again - does not continue from the previous run. The decoder decides naive / aware on the offset '
-           'component the encoder makes None exactly for naive datetimes.',
+           'component the encoder makes None exactly for naive datetimes, and never tests a decoded value for truth. R34c: nothing a run uses up '
+           '(open file / archive / key-value store, generator, DataStream) is created by a constructor or step factory (known: stream, unstream).',
     'C08': ' Who-may-reach clause of R15: only the package step reaches the rename.',
     'C09': ' R19d: every write_file_to_output path that returns without placing the file carries a test that excludes the descriptor, so the '
            'descriptor on disk is always the one of this run.',
     'C10': ' A step that builds a matcher and does more to a resource stream than hand it on asks the matcher in its stream phase too (R6c). '
            'R9 also demands that a user pattern anchored by concatenation is enclosed in a group (an alternation escapes ^...$).',
     'C12': ' R32 (late-binding closures) on the key calculator.',
-    'C13': ' R33 (groupby over unsorted headers) on the header de-duplication.',
+    'C13': ' R33 (groupby over unsorted headers) on the header de-duplication; limit_rows is tested against None and the limiter yields nothing for 0.',
     'C14': ' R9 grouping clause on the field-name pattern of set_type.',
     'C15': ' R9 grouping clause on the field-name patterns of delete_fields / select_fields / rename_fields.',
     'C20': ' Guards are read with flag locals resolved, and the value of the update keys that reaches storage.write at the end of each path is '
